@@ -372,8 +372,8 @@ def _seg_canonical(a):
 
 
 def p_decode_encode(sb):
-    """whatever a decoder accepts re-encodes to the same text: always for Base58Check; for segwit texts that are
-    canonical (separator '1', fewer than 5 padding bits, all zero); for WIF payloads of 33/34 bytes"""
+    """whatever a decoder accepts re-encodes to the same text (Base58Check, WIF, segwit), and what decode_bech32
+    accepts is canonical (separator '1', fewer than 5 padding bits, all zero: fixes cfb8181, 00bc7dc)"""
     s = T(sb)
     try:
         raw = helper.raw_decode_base58(s)
@@ -386,8 +386,8 @@ def p_decode_encode(sb):
             pk = pecc.PrivateKey.parse(s)
         except Exception:
             pk = None
-        if pk is not None and len(raw) in (33, 34):
-            if pk.compressed != (len(raw) == 34) or pk.wif(compressed=pk.compressed) != s:
+        if pk is not None:
+            if len(raw) not in (33, 34) or pk.compressed != (len(raw) == 34) or pk.wif(compressed=pk.compressed) != s:
                 return f"PrivateKey.parse accepts {s!r} but wif() of the result differs"
     try:
         net, ver, prog = bech32.decode_bech32(s)
@@ -395,23 +395,28 @@ def p_decode_encode(sb):
         return None
     if not (net in ("mainnet", "testnet", "regtest") and 0 <= ver < 32 and 2 <= len(prog) <= 40):
         return f"decode_bech32 returned values out of range: {(net, ver, len(prog))!r}"
-    if _seg_canonical(s):
-        back = bech32.encode_bech32_checksum(bytes([0x50 + ver if ver else 0, len(prog)]) + prog, net)
-        if back != s:
-            return f"decode_bech32 accepts the canonical text {s} but the result encodes to {back}"
+    if not _seg_canonical(s):
+        return f"decode_bech32 accepts the non-canonical text {s!r} (separator / padding)"
+    back = bech32.encode_bech32_checksum(bytes([0x50 + ver if ver else 0, len(prog)]) + prog, net)
+    if back != s:
+        return f"decode_bech32 accepts {s} but the result encodes to {back}"
     return None
 
 
 def p_parsers_only_addresses(sb):
-    """KNOWN FINDING C09-parsers-accept-non-addresses when it fails: a text accepted by address_to_script_pubkey /
-    TxOut.to_address is the address of the returned scriptPubKey on some network"""
+    """a text accepted by address_to_script_pubkey / TxOut.to_address is the address of the returned scriptPubKey,
+    one of the five standard templates, on some network, and the two parsers agree
+    (fixes cfb8181, adc6e07, 87f2a60)"""
     s = T(sb)
+    got = []
     for name, f in (("address_to_script_pubkey", script.address_to_script_pubkey),
                     ("TxOut.to_address", lambda x: tx.TxOut.to_address(x, 1).script_pubkey)):
         try:
             spk = f(s)
         except Exception:
+            got.append(None)
             continue
+        got.append(spk.commands)
         if not (spk.is_p2pkh() or spk.is_p2sh() or spk.is_p2wpkh() or spk.is_p2wsh() or spk.is_p2tr()):
             return f"{name} accepts {s!r} and returns the non-standard scriptPubKey {spk!r}"
         addrs = []
@@ -422,11 +427,13 @@ def p_parsers_only_addresses(sb):
                 pass
         if s not in addrs:
             return f"{name} accepts {s!r} (-> {spk!r}) although the addresses of that script are {sorted(set(addrs))!r}"
+    if got[0] != got[1]:
+        return f"address_to_script_pubkey and TxOut.to_address disagree on {s!r}: {got[0]!r} vs {got[1]!r}"
     return None
 
 
 def p_wif_only_wif(sb):
-    """KNOWN FINDING C09-wif-parse-any-length when it fails: a text accepted by PrivateKey.parse is a WIF text"""
+    """a text accepted by PrivateKey.parse is wif() of the parsed key (fix 6e4d66f)"""
     s = T(sb)
     try:
         pk = pecc.PrivateKey.parse(s)
@@ -663,14 +670,6 @@ def p_history(ops):
         if got is ERR or want is ERR or canon(got) != canon(want):
             return (f"step {i} {op[0].decode()}: got {_show(got)}, the reference for the current arguments/fields gives "
                     f"{_show(want)} — after {i} earlier call(s)/edit(s) in this session")
-    return None
-
-
-def classify(v):
-    if v["kind"] == "prop" and v["name"] == "parsers_only_addresses":
-        return "C09-parsers-accept-non-addresses"
-    if v["kind"] == "prop" and v["name"] == "wif_only_wif":
-        return "C09-wif-parse-any-length"
     return None
 
 
